@@ -72,6 +72,12 @@ func EndBlocker(ctx sdk.Context, k keeper.Keeper) {
 			}
 		}
 
+		// the last batch of a paused context is over: nothing is left to be started again
+		if requestContext.State == types.PAUSED && requestContext.Repeated &&
+			requestContext.RepeatedTotal >= 0 && int64(requestContext.BatchCounter) >= requestContext.RepeatedTotal {
+			k.CompleteServiceContext(ctx, requestContext, requestContextID)
+		}
+
 		k.CleanBatch(ctx, requestContext, requestContextID)
 	}
 
